@@ -17,14 +17,14 @@ import (
 func init() {
 	core.Register(&core.Part{
 		Name: "C03.chaos", Prop: "C03", Race: true,
-		Cases: func(tier string) int { return tierN(tier, 120, 5000) },
+		Cases: func(tier string) int { return tierN(tier, 120, 3000) },
 		Run: func(tier string, seed uint64, idx int) core.Result {
 			return runChaos("C03", "C03.chaos", tier, seed, idx)
 		},
 		Rule: "seeded schedules (15..30 steps) on 3 or 5 real nodes: write bursts (waited and fire-and-forget), stalled/delayed/cut links (re-delivery of the last appends after reconnect), follower restarts and wipes (snapshot install, chunk sizes 64B..1MiB), leaders isolated with an unreplicated tail and deposed, elections with random majority fence sets and orders, stragglers re-fenced and attached (truncation); " +
 			"online oracle at every ack (in the follower's goroutine, before the ack leaves): the follower's synced log equals the leader's at every newly acknowledged offset (term, payload, timestamp); at quiescence: logs identical up to the commit offset and decoded DB dumps identical on all replicas; " +
 			"non-trivial = >= 2 elections, >= 1 truncation or snapshot and >= 1 cut link; distinct = schedule",
-		MinNontrivial:    func(tier string) int { return tierN(tier, 40, 1500) },
+		MinNontrivial:    func(tier string) int { return tierN(tier, 40, 900) },
 		RequiredCounters: []string{"acks_checked", "elections", "log_entries_compared", "replica_dumps_compared", "truncations_or_snapshots", "link_cuts"},
 		CaseTimeoutS:     180,
 		Weight:           2,
